@@ -253,7 +253,8 @@ def fam_C01(rng, tier):
         s.unsubscribe([b'f' * (tg - 5)])
         s.disconnect([('r', 0), ('rs', b'r' * (tg - 3))])
         out.append(s.script())
-    if tier != 'quick':
+    if True:
+        # the three-byte / four-byte boundary of the remaining length (2 MiB packets): also in the quick tier, one request each
         for tg in [2097151, 2097152]:
             s = Sess(f'c01-exact-ops-{tg}')
             s.connect()
